@@ -110,11 +110,11 @@ func modifiesPtr(p any)   {} // the cell *p
 func modifiesMap(m any)   {} // the entries of map m
 func modifiesAll()        {} // anything
 
-func allocated(p any) bool   { return true } // p designates an object that exists in the current state
+func allocated(p any) bool         { return true } // p designates an object that exists in the current state
 func sameOrDisjoint(a, b any) bool { return true } // a and b are the same object or do not overlap
-func freshSlice(s any) bool { return true } // s's backing array was allocated by this call
-func sameBase(a, b any) bool { return true } // a and b share a backing array
-func sameArray(a, b any) bool { return true } // a is b extended in place: same backing window (base, offset, capacity)
+func freshSlice(s any) bool        { return true } // s's backing array was allocated by this call
+func sameBase(a, b any) bool       { return true } // a and b share a backing array
+func sameArray(a, b any) bool      { return true } // a is b extended in place: same backing window (base, offset, capacity)
 
 // suffixOf: a is a suffix of b (same backing array, same end).
 func suffixOf(a, b any) bool { return true }
